@@ -127,7 +127,9 @@ def run(tier):
     }
     return c.finish(rule='for every strategy branch of the pinned table (printed by TLC) the generator draws a whitelist barcode (20% with '
                          'one mismatch), read lengths on/next to every slice boundary or boundary + insert 0..150, qualities 0..51, N '
-                         'bases and the content recipes of the content-dependent strategies; an evaluation is one call of '
+                         'bases, stale already-demultiplexed headers, lower case, keyword variants (probe/library) and the content recipes of the '
+                         'content-dependent strategies; plus a pass feeding the same records to every registered strategy and a pass '
+                         'through FASTQ files (plain/gz/CRLF/no final newline) + the real loader loop; an evaluation is one call of '
                          'strategy.demultiplex; distinct_nontrivial counts distinct ACCEPTED (strategy, R1, R2) inputs', exhaustive=False,
                     extra_cov=extra)
 
